@@ -279,3 +279,143 @@ Lemma C15_empty_cloud_legacy_refuted : forall to_rv of_rv,
   bind (export to_rv (no_images (Some []))) (import_legacy of_rv) = Err EPointsShape /\
   roundtrip to_rv of_rv (no_images (Some [])) = Ok (no_images (Some [])).
 Proof. intros to_rv of_rv. repeat split; vm_compute; reflexivity. Qed.
+
+(* =====================================================================================================
+   PART C — HISTORIES: the export directory was used before.  [prev] is ANY project found there (what an
+   earlier export_opensfm, of this or of another dataset, left); [export_onto prev d] is the export of [d]
+   into that directory as the code does it — reconstruction.json / camera_models.json rewritten, a features
+   file written over for every image that has keypoints or descriptors, a matches file written over for
+   every image when there are matches, nothing deleted — and [roundtrip_onto prev d] the import of the
+   result.  [covered_by prev d]: every features / matches file of [prev] is one that the export of [d]
+   writes again (the recording grew, its features were extracted anew: the usual re-export).
+   ===================================================================================================== *)
+(* a fresh directory is the empty history *)
+Theorem C15_fresh_directory_is_the_empty_history : forall to_rv d,
+  export_onto to_rv empty_project d = export to_rv d.
+Proof. exact export_onto_empty. Qed.
+Print Assumptions C15_fresh_directory_is_the_empty_history.
+
+(* what the folders hold afterwards, for ANY earlier content and ANY dataset: the files of the dataset win *)
+Theorem C15_reexport_features_folder : forall prev d n,
+  lookup n (export_features_onto prev d)
+  = if memb n (names d)
+    then match feature_entry d n with Some e => Some e | None => lookup n prev end
+    else lookup n prev.
+Proof. exact reexport_features_lookup. Qed.
+Print Assumptions C15_reexport_features_folder.
+
+Theorem C15_reexport_matches_folder : forall prev d a,
+  lookup a (export_matches_onto prev d)
+  = match d_matches d with
+    | [] => lookup a prev
+    | _ => if memb a (names d) then Some (matches_of d a) else lookup a prev
+    end.
+Proof. exact reexport_matches_lookup. Qed.
+Print Assumptions C15_reexport_matches_folder.
+
+(* ANY history changes the outcome of the round trip in the features and matches only (shots, poses, cameras and
+   points are those of Part A), and these are what the importer reads from the folders above *)
+Theorem C15_reexport_differs_in_features_and_matches_only : forall to_rv of_rv prev d d0,
+  roundtrip to_rv of_rv d = Ok d0 ->
+  roundtrip_onto to_rv of_rv prev d
+  = Ok (set_fm d0 (import_keypoints (export_features_onto (o_features prev) d))
+                  (import_descriptors (export_features_onto (o_features prev) d))
+                  (import_matches (export_matches_onto (o_matches prev) d))).
+Proof. exact roundtrip_onto_spec. Qed.
+Print Assumptions C15_reexport_differs_in_features_and_matches_only.
+
+(* THE PROPERTY THROUGH A COVERED HISTORY: for every in-range dataset, whatever the earlier export held in the files
+   that are written again (other values, other dtype, other width, other pairs), the re-import gives the keypoints,
+   descriptors and match index pairs OF THE DATASET — nothing stale — and everything else as in Part A *)
+Theorem C15_reexport_covered_history : forall to_rv of_rv d prev, in_range d = true ->
+  NoDup (keys (o_features prev)) -> NoDup (keys (o_matches prev)) -> covered_by prev d ->
+  exists d0 d', roundtrip to_rv of_rv d = Ok d0 /\ roundtrip_onto to_rv of_rv prev d = Ok d' /\
+    d_cameras d' = d_cameras d0 /\ d_images d' = d_images d0 /\ d_traj d' = d_traj d0 /\ d_points d' = d_points d0 /\
+    (forall n, lookup n (d_keypoints d') = lookup n (d_keypoints d)) /\
+    (forall n, lookup n (d_descriptors d') = lookup n (d_descriptors d)) /\
+    (forall a b, option_map (map mrow_idx) (lookup (a, b) (d_matches d'))
+                 = option_map (map mrow_idx) (lookup (a, b) (d_matches d))).
+Proof.
+  intros to_rv of_rv d prev R WF WM COV.
+  eexists. eexists. split; [apply roundtrip_total; exact R|]. split.
+  { apply roundtrip_onto_spec. apply roundtrip_total; exact R. }
+  cbn [set_fm d_cameras d_images d_traj d_points d_keypoints d_descriptors d_matches].
+  repeat split.
+  - intros n. apply (reexport_keypoints to_rv of_rv d R prev WF COV).
+  - intros n. apply (reexport_descriptors to_rv of_rv d R prev WF COV).
+  - intros a b. rewrite (reexport_matches to_rv of_rv d R prev WM COV).
+    destruct (lookup (a, b) (d_matches d)) as [rows|]; cbn; [|reflexivity].
+    f_equal. rewrite map_map. cbn. rewrite map_id. reflexivity.
+Qed.
+Print Assumptions C15_reexport_covered_history.
+
+(* LEFTOVERS, AS THE CODE IS (observation, outside the judged range): a features file of the earlier export that the
+   dataset does not write again survives, and the importer turns it into keypoints the dataset never had *)
+Theorem C15_reexport_leftover_keypoints_as_is : forall to_rv of_rv d prev n a ds, in_range d = true ->
+  NoDup (keys (o_features prev)) ->
+  lookup n (o_features prev) = Some (Some a, ds) -> feature_entry d n = None ->
+  lookup n (d_keypoints d) = None /\
+  exists d', roundtrip_onto to_rv of_rv prev d = Ok d' /\ lookup n (d_keypoints d') = Some a.
+Proof.
+  intros to_rv of_rv d prev n a ds R WF L F. split.
+  - unfold feature_entry in F. destruct (lookup n (d_keypoints d)); [|reflexivity].
+    destruct (lookup n (d_descriptors d)); discriminate F.
+  - eexists. split; [apply roundtrip_onto_spec; apply roundtrip_total; exact R|].
+    cbn [set_fm d_keypoints].
+    rewrite lookup_import_keypoints by (apply wf_export_features_onto; exact WF).
+    rewrite (reexport_leftover_features _ _ _ _ L F). reflexivity.
+Qed.
+Print Assumptions C15_reexport_leftover_keypoints_as_is.
+
+(* non-vacuity of Part C: over [ex_d], an earlier project with OTHER keypoints (another dtype and width) and descriptors for
+   a.jpg and another match file for z/b.jpg is a covered history; the re-import yields the arrays of [ex_d] *)
+Definition ex_prev : project :=
+  with_fm empty_project
+          [("a.jpg", (Some (mkArr "float64" 2 [1; 2; 3; 4]%N), Some (mkArr "float32" 1 [9]%N)))]
+          [("z/b.jpg", [("a.jpg", [(7%Z, 7%Z)]); ("m/n/c.jpg", [(1%Z, 2%Z)])])].
+
+Example C15_reexport_example :
+  covered_by ex_prev ex_d /\ NoDup (keys (o_features ex_prev)) /\ NoDup (keys (o_matches ex_prev)) /\
+  exists d', roundtrip_onto cayley_to cayley_of ex_prev ex_d = Ok d' /\
+             lookup "a.jpg" (d_keypoints d') = Some (mkArr "float32" 4 [0; 1065353216; 1073741824; 1077936128]%N) /\
+             map fst (d_matches d') = [("z/b.jpg", "a.jpg"); ("a.jpg", "m/n/c.jpg")].
+Proof.
+  split.
+  { split.
+    - intros n. cbn [ex_prev with_fm o_features lookup]. destruct (eqb_spec n "a.jpg") as [->|_]; [|tauto].
+      intros _. split; [vm_compute; reflexivity|vm_compute; discriminate].
+    - intros a. cbn [ex_prev with_fm o_matches lookup]. destruct (eqb_spec a "z/b.jpg") as [->|_]; [|tauto].
+      intros _. split; [vm_compute; discriminate|vm_compute; reflexivity]. }
+  split; [repeat constructor; cbn; tauto|]. split; [repeat constructor; cbn; tauto|].
+  eexists. split; [vm_compute; reflexivity|]. vm_compute. split; reflexivity.
+Qed.
+
+(* --- the other behaviour classes the generator exercises, stated for all inputs *)
+(* timestamps: the re-imported images are stamped with the rank of their shot, 0 .. n-1, whatever the timestamps of the
+   dataset (shared between synchronised cameras, starting at 0, huge): no two images can collide *)
+Theorem C15_timestamps_are_shot_ranks : forall to_rv of_rv d, in_range d = true ->
+  forall d', roundtrip to_rv of_rv d = Ok d' ->
+  map i_ts (d_images d') = map Z.of_nat (seq 0 (List.length (d_images d))).
+Proof.
+  intros to_rv of_rv d R d' H. rewrite (roundtrip_total to_rv of_rv d R) in H. injection H as <-.
+  cbn [back d_images]. rewrite imgs_from_ts. apply map_ext. intros k. reflexivity.
+Qed.
+Print Assumptions C15_timestamps_are_shot_ranks.
+
+(* match scores: every row of every pair comes back — same index pairs, same number of rows, score 1 — whatever its
+   score was (0, negative, above 1) *)
+Theorem C15_match_rows_kept_whatever_the_score : forall to_rv of_rv d, in_range d = true ->
+  forall d', roundtrip to_rv of_rv d = Ok d' ->
+  forall a b rows, lookup (a, b) (d_matches d) = Some rows ->
+  exists rows', lookup (a, b) (d_matches d') = Some rows' /\
+                map mrow_idx rows' = map mrow_idx rows /\ List.length rows' = List.length rows /\
+                Forall (fun r => snd r = 1) rows'.
+Proof.
+  intros to_rv of_rv d R d' H a b rows L. rewrite (roundtrip_total to_rv of_rv d R) in H. injection H as <-.
+  rewrite (matches_preserved to_rv of_rv d R), L. cbn [option_map]. eexists. split; [reflexivity|].
+  split; [|split].
+  - rewrite map_map. cbn. apply map_id.
+  - rewrite !map_length. reflexivity.
+  - apply Forall_forall. intros r I. apply in_map_iff in I. destruct I as (ij & <- & _). reflexivity.
+Qed.
+Print Assumptions C15_match_rows_kept_whatever_the_score.
